@@ -351,6 +351,8 @@ def verify_function(c, registry, feas_timeout=300):
         for cl in pre:
             if cl['kind'] == 'requires':
                 st.assume(cl['cond'])
+            elif cl['kind'] == 'define':
+                st.assume(to_z3(cl['cond']))        # axioms / defining facts stated before the body runs
             elif cl['kind'] == 'inline':
                 for a in cl['args']:
                     eng.inline.add(a[len('mir_eval.'):] if a.startswith('mir_eval.') else a)
